@@ -16,9 +16,25 @@
    (C05_containment, C05_containment_between_keywords, C05_errors_contained).
    C05_full_statement as first written is too strong for the model and is refuted
    (C05_full_statement_refuted); C05_contained_in_one_declaration is the version that holds.
-   Not proved: the table part; it is decided by the check's exhaustive single-token damage campaign. *)
+   The table part is proved as well (third part of this file, from Proofs/TableContain*.v), for ALL trees:
+   the table of table::build is a function of the declaration list alone (C05_table_is_function; analyze
+   does not touch it, C05_analysis_keeps_table); when two trees agree except for declaration k (offsets
+   behind it moved by a constant - what C05_contained_in_one_declaration delivers), then
+     - every entry of a declaration in front of k is in both tables, unchanged;
+     - every name that declaration k declares in NEITHER tree has an entry in one table iff it has one in the
+       other, of the same kind, with the same name identifier, documentation, range (moved by the constant
+       behind k), the same parameters and local entries except for their data types [kept_skel];
+     - the data types are the same too [kept_full] unless the name is tainted: the taint starts with the
+       names declaration k declares in p or p' whose resolution as a type name differs after declaration k,
+       and spreads to each later declaration one of whose type expressions mentions a tainted name
+       (C05_table_entries_kept; C05_table_same_procedure: no taint at all when declaration k is a procedure
+       that keeps its name; C05_table_contained / C05_table_contained_documents: the same from token vectors
+       resp. texts on, hypotheses of C05_containment, both builds succeed).
+   The side conditions are necessary (C05_table_example, and C05_table_name_clash: a damage that gives
+   declaration k the name of a LATER declaration takes that declaration's entry - the first declaration wins). *)
 From Spl Require Import Model.Lexer Model.Parser Model.Errors Proofs.ParserTotal Proofs.ParserSync Proofs.ParserFwd Proofs.ParserProofs
-  Proofs.PipelineProofs Proofs.ParserShiftProofs.
+  Proofs.PipelineProofs Proofs.ParserShiftProofs Proofs.RangeProofsBuild
+  Proofs.TableContain Proofs.TableContainSim Proofs.TableContainTop.
 Local Open Scope nat_scope.
 
 Theorem C05_lexer_output_ends_with_eof : forall s toks, lex s = Some toks -> EofLast toks.
@@ -210,3 +226,279 @@ Example C05_one_declaration_example :
   same_decls_before (prog_of (xpre ++ xmid ++ xpost)) (prog_of (xpre ++ xmid1 ++ xpost)) 1 /\
   same_decls_after (prog_of (xpre ++ xmid ++ xpost)) (prog_of (xpre ++ xmid1 ++ xpost)) 1 2 1.
 Proof. split; vm_compute; reflexivity. Qed.
+
+(* ------------------------------------------------------------------------------------------ *)
+(* the table part (Proofs/TableContain.v, TableContainSim.v, TableContainTop.v).
+   [table_of ds T]: the table after entering the declarations ds into T, one [decl_entry] per declaration
+   under its [decl_key], the first declaration of a key wins.  [tyres T n]: how n resolves as a type name in T
+   (undefined / a procedure / a type with its data type) - all that build reads from the global table.
+   [kept_full old new o o']: o and o' are both None, or the same entry with the range moved
+   (range + new = range' + old); [kept_skel]: the same after forgetting all data types. *)
+
+Theorem C05_table_is_function : forall p q T,
+  build_res p = ROk (q, T) -> T = table_of (pg_decls p) initialized.
+Proof. exact build_res_table. Qed.
+Print Assumptions C05_table_is_function.
+
+(* the table of a document is the table of build: analyze returns a tree only *)
+Theorem C05_analysis_keeps_table : forall t d,
+  new_doc_res t = ODone d ->
+  exists p q, parse (d_toks d) = Done p /\ build_res p = ROk (q, d_table d) /\ analyze_res q (d_table d) = ROk (d_ast d).
+Proof. intros t d H. destruct (new_doc_shape t d H) as (_ & _ & _ & _ & p & q & H1 & H2 & H3). exists p, q. auto. Qed.
+Print Assumptions C05_analysis_keeps_table.
+
+(* the keys of a table: the predefined ones and [decl_keys] (names of procedures and of types other than `main`) *)
+Theorem C05_table_keys : forall ds T n,
+  lookup (table_of ds T) n <> None <-> lookup T n <> None \/ In n (decl_keys ds).
+Proof. exact table_of_keys. Qed.
+Print Assumptions C05_table_keys.
+
+(* tree level: p and p' agree except for declaration k *)
+Theorem C05_table_entries_kept : forall p p' k old_len new_len q T q' T',
+  same_decls_before p p' k -> same_decls_after p p' k old_len new_len ->
+  build_res p = ROk (q, T) -> build_res p' = ROk (q', T') ->
+  let A := firstn k (pg_decls p) in                       (* the declarations in front *)
+  let M := firstn 1 (skipn k (pg_decls p)) in             (* declaration k of p *)
+  let M' := firstn 1 (skipn k (pg_decls p')) in           (* declaration k of p' *)
+  let B := skipn (S k) (pg_decls p) in                    (* the declarations behind *)
+  let front := table_of A initialized in
+  let D := decl_keys M ++ decl_keys M' in
+  let W := tainted (seed (table_of (A ++ M) initialized) (table_of (A ++ M') initialized) D) B in
+  (forall n e, lookup front n = Some e -> lookup T n = Some e /\ lookup T' n = Some e) /\
+  (forall n, ~ In n W -> tyres T n = tyres T' n) /\
+  (forall n, lookup front n = None -> ~ In n D -> kept_skel old_len new_len (lookup T n) (lookup T' n)) /\
+  (forall n, lookup front n = None -> ~ In n D -> ~ In n W -> kept_full old_len new_len (lookup T n) (lookup T' n)).
+Proof.
+  intros p p' k old_len new_len q T q' T' Hb Ha Hq Hq'.
+  pose proof (table_kept_trees p p' k (S k) (S k) old_len new_len q T q' T' (le_S k k (le_n k)) (le_S k k (le_n k))
+                Hb Ha Hq Hq') as H.
+  unfold table_kept in H. replace (S k - k) with 1 in H by (clear; induction k; [reflexivity | assumption]). exact H.
+Qed.
+Print Assumptions C05_table_entries_kept.
+
+(* the general form: declarations k .. k2-1 of p against k .. k2'-1 of p' (a damage may add or remove Error
+   declarations, C05_containment_example) *)
+Theorem C05_table_entries_kept_general : forall p p' k k2 k2' old_len new_len q T q' T',
+  k <= k2 -> k <= k2' ->
+  firstn k (pg_decls p) = firstn k (pg_decls p') ->
+  shift_offs new_len (skipn k2 (pg_decls p)) = shift_offs old_len (skipn k2' (pg_decls p')) ->
+  build_res p = ROk (q, T) -> build_res p' = ROk (q', T') ->
+  table_kept old_len new_len (pg_decls p) (pg_decls p') k k2 k2' T T'.
+Proof. exact table_kept_trees. Qed.
+Print Assumptions C05_table_entries_kept_general.
+
+(* what the two relations say, field by field *)
+Theorem C05_table_kept_fields : forall old_len new_len o o',
+  (kept_full old_len new_len o o' -> kept_skel old_len new_len o o') /\
+  (kept_skel old_len new_len o o' ->
+   match o, o' with
+   | None, None => True
+   | Some (GTypeE t), Some (GTypeE t') =>
+       ten_name t = ten_name t' /\ ten_doc t = ten_doc t' /\
+       shift_range (ten_range t) new_len = shift_range (ten_range t') old_len
+   | Some (GProcE e), Some (GProcE e') =>
+       pe_name e = pe_name e' /\ pe_doc e = pe_doc e' /\
+       shift_range (pe_range e) new_len = shift_range (pe_range e') old_len /\
+       map erase_v (pe_params e) = map erase_v (pe_params e') /\
+       erase_lt (pe_local e) = erase_lt (pe_local e')
+   | _, _ => False
+   end) /\
+  (kept_full old_len new_len o o' ->
+   match o, o' with
+   | None, None => True
+   | Some (GTypeE t), Some (GTypeE t') =>
+       ten_name t = ten_name t' /\ ten_doc t = ten_doc t' /\ ten_ty t = ten_ty t' /\
+       shift_range (ten_range t) new_len = shift_range (ten_range t') old_len
+   | Some (GProcE e), Some (GProcE e') =>
+       pe_name e = pe_name e' /\ pe_doc e = pe_doc e' /\
+       shift_range (pe_range e) new_len = shift_range (pe_range e') old_len /\
+       pe_params e = pe_params e' /\ pe_local e = pe_local e'
+   | _, _ => False
+   end).
+Proof.
+  intros old_len new_len o o'. split; [apply kept_full_skel|]. split; [apply kept_skel_fields | apply kept_full_fields].
+Qed.
+Print Assumptions C05_table_kept_fields.
+
+(* the taint starts inside D and outside the front: a name declared in front of k is never tainted by k *)
+Theorem C05_table_seed : forall T0 M M' n,
+  In n (seed (table_of M T0) (table_of M' T0) (decl_keys M ++ decl_keys M')) ->
+  In n (decl_keys M ++ decl_keys M') /\ lookup T0 n = None.
+Proof. exact seed_sub. Qed.
+Print Assumptions C05_table_seed.
+
+(* declaration k is a procedure and keeps its name (a damage of its parameters, variables or body): nothing is
+   tainted - every other name keeps its complete entry *)
+Theorem C05_table_same_procedure : forall p p' k old_len new_len q T q' T' pd o pd' o',
+  same_decls_before p p' k -> same_decls_after p p' k old_len new_len ->
+  build_res p = ROk (q, T) -> build_res p' = ROk (q', T') ->
+  nth_error (pg_decls p) k = Some (GProc pd, o) -> nth_error (pg_decls p') k = Some (GProc pd', o') ->
+  decl_key (GProc pd) = decl_key (GProc pd') ->
+  let front := table_of (firstn k (pg_decls p)) initialized in
+  (forall n e, lookup front n = Some e -> lookup T n = Some e /\ lookup T' n = Some e) /\
+  (forall n, tyres T n = tyres T' n) /\
+  (forall n, lookup front n = None -> decl_key (GProc pd) <> Some n ->
+             kept_full old_len new_len (lookup T n) (lookup T' n)).
+Proof.
+  intros p p' k old_len new_len q T q' T' pd o pd' o' Hb Ha Hq Hq' Hn Hn' Hk.
+  destruct (table_kept_same_proc p p' k old_len new_len q T q' T' pd o pd' o' Hb Ha Hq Hq' Hn Hn' Hk) as (H0 & H1 & _ & H3).
+  split; [exact H0|]. split; [intros n; apply H1; intros []|].
+  intros n Hf Hd. apply (H3 n Hf); [|intros []].
+  unfold decl_keys. cbn [flat_map fst app]. rewrite <- Hk. destruct (decl_key (GProc pd)) as [x|]; cbn [app In]; [|tauto].
+  intros [E|[E|[]]]; apply Hd; rewrite E; reflexivity.
+Qed.
+Print Assumptions C05_table_same_procedure.
+
+(* from token vectors on: the hypotheses of C05_containment; both builds succeed, the tables are related *)
+Theorem C05_table_contained : forall pre mid mid' post p p' j k o k2 k2',
+  EofLast (pre ++ mid ++ post) -> EofLast (pre ++ mid' ++ post) ->
+  parse (pre ++ mid ++ post) = Done p -> parse (pre ++ mid' ++ post) = Done p' ->
+  (exists t, nth_error pre j = Some t /\ sync_full (tk t) = true) -> Boundary p k o -> o <= j ->
+  Boundary p k2 (length pre + length mid) -> Boundary p' k2' (length pre + length mid') ->
+  exists q T q' T',
+    build_res p = ROk (q, T) /\ build_res p' = ROk (q', T') /\
+    table_kept (length mid) (length mid') (pg_decls p) (pg_decls p') k k2 k2' T T'.
+Proof. exact table_contained. Qed.
+Print Assumptions C05_table_contained.
+
+(* and for the documents of two texts *)
+Theorem C05_table_contained_documents : forall t t' d d' pre mid mid' post j k o k2 k2',
+  new_doc_res t = ODone d -> new_doc_res t' = ODone d' ->
+  d_toks d = pre ++ mid ++ post -> d_toks d' = pre ++ mid' ++ post ->
+  exists p p',
+    parse (d_toks d) = Done p /\ parse (d_toks d') = Done p' /\
+    ((exists tj, nth_error pre j = Some tj /\ sync_full (tk tj) = true) -> Boundary p k o -> o <= j ->
+     Boundary p k2 (length pre + length mid) -> Boundary p' k2' (length pre + length mid') ->
+     table_kept (length mid) (length mid') (pg_decls p) (pg_decls p') k k2 k2' (d_table d) (d_table d')).
+Proof. exact table_contained_docs. Qed.
+Print Assumptions C05_table_contained_documents.
+
+(* non-vacuity and necessity of the side conditions:
+     type a = int ; type t = array [ 3 ] of int ; type b = t ; proc p ( ref v : t , w : a ) { } proc main ( ) { } Eof
+   with the `int` of declaration 1 deleted (mid = `int ;`, mid' = `;`).  a is declared in front; t is declared
+   by the damaged declaration and its data type changes, so b and p - which mention t - are tainted: they keep
+   everything but the data types; main is not tainted and keeps its complete entry, moved by one token. *)
+Definition n_a : text := [97%N].
+Definition n_b : text := [98%N].
+Definition n_p : text := [112%N].
+Definition n_t : text := [116%N].
+Definition ypre := mk [KType; Ident n_a; EqT; Ident s_int; Semic;
+                       KType; Ident n_t; EqT; KArray; LBracket; IntT (IntOk 3); RBracket; KOf].
+Definition ymid := mk [Ident s_int; Semic].
+Definition ymid' := mk [Semic].
+Definition ypost0 := mk [KType; Ident n_b; EqT; Ident n_t; Semic;
+                         KProc; Ident n_p; LParen; KRef; Ident [118%N]; Colon; Ident n_t; Comma; Ident [119%N]; Colon; Ident n_a;
+                         RParen; LCurly; RCurly;
+                         KProc; Ident s_main; LParen; RParen; LCurly; RCurly].
+Definition ypost := ypost0 ++ mk [Eof].
+Definition yp : program := Eval vm_compute in prog_of (ypre ++ ymid ++ ypost).
+Definition yp' : program := Eval vm_compute in prog_of (ypre ++ ymid' ++ ypost).
+Definition yq : program := Eval vm_compute in match build_res yp with ROk (q, _) => q | RFail _ => yp end.
+Definition yq' : program := Eval vm_compute in match build_res yp' with ROk (q, _) => q | RFail _ => yp' end.
+Definition ytab : gtable := Eval vm_compute in match build_res yp with ROk (_, T) => T | RFail _ => [] end.
+Definition ytab' : gtable := Eval vm_compute in match build_res yp' with ROk (_, T) => T | RFail _ => [] end.
+
+Ltac not_in := let H := fresh "H" in intros H; vm_compute in H; repeat (destruct H as [H|H]; [discriminate H|]); exact H.
+
+Example C05_table_example :
+  (* the hypotheses of C05_table_entries_kept *)
+  same_decls_before yp yp' 1 /\ same_decls_after yp yp' 1 2 1 /\
+  build_res yp = ROk (yq, ytab) /\ build_res yp' = ROk (yq', ytab') /\
+  (* the taint *)
+  (let A := firstn 1 (pg_decls yp) in let M := firstn 1 (skipn 1 (pg_decls yp)) in
+   let M' := firstn 1 (skipn 1 (pg_decls yp')) in let D := decl_keys M ++ decl_keys M' in
+   tainted (seed (table_of (A ++ M) initialized) (table_of (A ++ M') initialized) D) (skipn 2 (pg_decls yp))
+   = [n_p; n_b; n_t; n_t]) /\
+  (* through the theorem *)
+  lookup ytab n_a = lookup ytab' n_a /\ lookup ytab n_a <> None /\
+  kept_full 2 1 (lookup ytab s_main) (lookup ytab' s_main) /\ lookup ytab s_main <> None /\
+  kept_skel 2 1 (lookup ytab n_b) (lookup ytab' n_b) /\ lookup ytab n_b <> None /\
+  kept_skel 2 1 (lookup ytab n_p) (lookup ytab' n_p) /\ lookup ytab n_p <> None /\
+  (* by evaluation: the tainted names do not keep their data types *)
+  ~ kept_full 2 1 (lookup ytab n_b) (lookup ytab' n_b) /\
+  ~ kept_full 2 1 (lookup ytab n_p) (lookup ytab' n_p) /\
+  tyres ytab n_t <> tyres ytab' n_t.
+Proof.
+  assert (Hb : same_decls_before yp yp' 1) by (vm_compute; reflexivity).
+  assert (Ha : same_decls_after yp yp' 1 2 1) by (vm_compute; reflexivity).
+  assert (Hq : build_res yp = ROk (yq, ytab)) by (vm_compute; reflexivity).
+  assert (Hq' : build_res yp' = ROk (yq', ytab')) by (vm_compute; reflexivity).
+  pose proof (C05_table_entries_kept yp yp' 1 2 1 yq ytab yq' ytab' Hb Ha Hq Hq') as H. cbv zeta in H.
+  destruct H as (H0 & H1 & H2 & H3).
+  split; [exact Hb|]. split; [exact Ha|]. split; [exact Hq|]. split; [exact Hq'|].
+  split; [vm_compute; reflexivity|].
+  split. { edestruct (H0 n_a) as [E1 E2]; [vm_compute; reflexivity|]. rewrite E1, E2. reflexivity. }
+  split; [vm_compute; discriminate|].
+  split. { apply H3; [vm_compute; reflexivity | not_in | not_in]. }
+  split; [vm_compute; discriminate|].
+  split. { apply H2; [vm_compute; reflexivity | not_in]. }
+  split; [vm_compute; discriminate|].
+  split. { apply H2; [vm_compute; reflexivity | not_in]. }
+  split; [vm_compute; discriminate|].
+  split; [vm_compute; discriminate|]. split; [vm_compute; discriminate|]. vm_compute; discriminate.
+Qed.
+Print Assumptions C05_table_example.
+
+(* the same example from the token vectors on: the hypotheses of C05_table_contained hold *)
+Lemma EofLast_y m : Forall (fun t => tk t <> Eof) m -> EofLast (ypre ++ m ++ ypost).
+Proof.
+  intros Hm. exists (ypre ++ m ++ ypost0), {| tk := Eof; ts := 0; te := 0; terr := [] |}.
+  split; [unfold ypost; now rewrite <- !app_assoc|]. split; [reflexivity|].
+  apply Forall_app. split; [repeat constructor; discriminate|].
+  apply Forall_app. split; [exact Hm | repeat constructor; discriminate].
+Qed.
+
+Example C05_table_contained_example :
+  exists q T q' T',
+    build_res yp = ROk (q, T) /\ build_res yp' = ROk (q', T') /\
+    table_kept 2 1 (pg_decls yp) (pg_decls yp') 1 2 2 T T'.
+Proof.
+  apply (C05_table_contained ypre ymid ymid' ypost yp yp' 5 1 5 2 2).
+  - apply EofLast_y. repeat constructor; discriminate.
+  - apply EofLast_y. repeat constructor; discriminate.
+  - vm_compute. reflexivity.
+  - vm_compute. reflexivity.
+  - eexists. split; reflexivity.
+  - split; [vm_compute; repeat constructor | vm_compute; reflexivity].
+  - repeat constructor.
+  - split; [vm_compute; repeat constructor | vm_compute; reflexivity].
+  - split; [vm_compute; repeat constructor | vm_compute; reflexivity].
+Qed.
+Print Assumptions C05_table_contained_example.
+
+(* the condition "n is not declared by the damaged declaration" is necessary behind it:
+     type t = int ; type b = t ; proc main ( ) { } Eof     with `b` inserted in front of the first `t`
+   (`type b t = int ;`: a type declaration b without `=`, and an Error declaration for `t = int ;` - containment
+   holds with k = 0, k2 = 1, k2' = 2).  The damaged declaration is now the first declaration of b and takes the
+   entry (the first declaration wins, the undamaged `type b = t` is a redeclaration) *)
+Definition zpre := mk [KType].
+Definition zmid := mk [Ident n_t; EqT; Ident s_int; Semic].
+Definition zmid' := mk [Ident n_b; Ident n_t; EqT; Ident s_int; Semic].
+Definition zpost := mk [KType; Ident n_b; EqT; Ident n_t; Semic; KProc; Ident s_main; LParen; RParen; LCurly; RCurly; Eof].
+Definition zp : program := Eval vm_compute in prog_of (zpre ++ zmid ++ zpost).
+Definition zp' : program := Eval vm_compute in prog_of (zpre ++ zmid' ++ zpost).
+Definition ztab : gtable := Eval vm_compute in match build_res zp with ROk (_, T) => T | RFail _ => [] end.
+Definition ztab' : gtable := Eval vm_compute in match build_res zp' with ROk (_, T) => T | RFail _ => [] end.
+
+Example C05_table_name_clash :
+  parse (zpre ++ zmid ++ zpost) = Done zp /\ parse (zpre ++ zmid' ++ zpost) = Done zp' /\
+  Boundary zp 0 0 /\ Boundary zp 1 (length zpre + length zmid) /\ Boundary zp' 2 (length zpre + length zmid') /\
+  firstn 0 (pg_decls zp) = firstn 0 (pg_decls zp') /\
+  shift_offs 5 (skipn 1 (pg_decls zp)) = shift_offs 4 (skipn 2 (pg_decls zp')) /\
+  (exists q q', build_res zp = ROk (q, ztab) /\ build_res zp' = ROk (q', ztab')) /\
+  In n_b (decl_keys (firstn (1 - 0) (skipn 0 (pg_decls zp))) ++ decl_keys (firstn (2 - 0) (skipn 0 (pg_decls zp')))) /\
+  option_map (fun e => match e with GTypeE t => ten_range t | GProcE e => pe_range e end) (lookup ztab n_b) = Some (5, 10) /\
+  option_map (fun e => match e with GTypeE t => ten_range t | GProcE e => pe_range e end) (lookup ztab' n_b) = Some (0, 3) /\
+  ~ kept_skel 4 5 (lookup ztab n_b) (lookup ztab' n_b) /\
+  kept_full 4 5 (lookup ztab s_main) (lookup ztab' s_main).
+Proof.
+  split; [vm_compute; reflexivity|]. split; [vm_compute; reflexivity|].
+  split; [split; [vm_compute; repeat constructor | vm_compute; reflexivity]|].
+  split; [split; [vm_compute; repeat constructor | vm_compute; reflexivity]|].
+  split; [split; [vm_compute; repeat constructor | vm_compute; reflexivity]|].
+  split; [reflexivity|]. split; [vm_compute; reflexivity|].
+  split; [eexists; eexists; split; vm_compute; reflexivity|].
+  split; [vm_compute; tauto|]. split; [vm_compute; reflexivity|]. split; [vm_compute; reflexivity|].
+  split; [vm_compute; discriminate | vm_compute; reflexivity].
+Qed.
+Print Assumptions C05_table_name_clash.
